@@ -6,10 +6,14 @@ req = read_request()
 from redun.backends.db import RedunBackendDb, Tag, TagEdit
 from redun.backends.base import TagEntity
 
+MODE = os.environ.get("C24_MODE", "")
 KEYS = ["k1", "k2"]
-VALS = [1, "x"]
+VALS = [1, "x"] if not MODE else [None, 1]          # the null modes use JSON null as a tag value
 PAIRS = [(k, v) for k in KEYS for v in VALS]
-OPS = [("add", p) for p in PAIRS] + [("update", p) for p in PAIRS] + [("rm", p) for p in PAIRS] + [("rmkey", k) for k in KEYS]
+OPS = [("add", p) for p in PAIRS] + [("update", p) for p in PAIRS] + [("rm", p) for p in PAIRS if not (MODE == "null-ok" and p[1] is None)] + [("rmkey", k) for k in KEYS]
+# commands with several arguments, as the tag commands accept them (`redun tag rm ID k1=1 k2="x"`, `redun tag add ID k1=1 k2="x"`, `redun tag rm ID k1=1 k2`)
+MULTI = [("add*", (("k1", 1), ("k2", "x"))), ("add*", (("k1", "x"), ("k2", 1))), ("update*", (("k1", 1), ("k2", 1))), ("rm*", (("k1", 1), ("k2", "x"))), ("rm*", (("k1", "x"), ("k2", 1))),
+         ("rmmix", (("k1", 1), "k2"))]
 n = 0
 nontrivial = set()
 w = None
@@ -27,6 +31,14 @@ def apply_model(model, ent, op):
         cur.discard(arg)
     elif kind == "rmkey":
         model[ent] = {p for p in cur if p[0] != arg}
+    elif kind == "add*":
+        cur.update(arg)
+    elif kind == "update*":
+        model[ent] = {p for p in cur if p[0] not in {a[0] for a in arg}} | set(arg)
+    elif kind == "rm*":
+        cur.difference_update(arg)
+    elif kind == "rmmix":
+        model[ent] = {p for p in cur if p != arg[0] and p[0] != arg[1]}
 
 
 def apply_real(b, ent, op):
@@ -39,6 +51,14 @@ def apply_real(b, ent, op):
         b.delete_tags(ent, [arg], [])
     elif kind == "rmkey":
         b.delete_tags(ent, [], [arg])
+    elif kind == "add*":
+        b.record_tags(TagEntity.Value, ent, list(arg), new=True)
+    elif kind == "update*":
+        b.record_tags(TagEntity.Value, ent, list(arg), update=True)
+    elif kind == "rm*":
+        b.delete_tags(ent, list(arg), [])
+    elif kind == "rmmix":
+        b.delete_tags(ent, [arg[0]], [arg[1]])
 
 
 def current(b, ent):
@@ -116,6 +136,14 @@ def run(hist):
 
 
 maxlen = int(os.environ.get("C24_LEN", "3"))
+if MODE == "null-rm":
+    # removal of a pair whose value is JSON null, in the histories where the pair is current
+    maxlen = 0
+    for k in KEYS:
+        for prefix in ([("add", (k, None))], [("update", (k, None))], [("add", (k, 1)), ("add", (k, None))], [("add", (k, None)), ("rmkey", "k2" if k == "k1" else "k1")]):
+            w = w or run([("e1", op) for op in prefix + [("rm", (k, None))]])
+    finish(w is not None, witness=w, evaluations=n, distinct=len(nontrivial), samples=[["e1:add:('k1', None)", "e1:rm:('k1', None)"]],
+           bound="8 histories that end with the removal of a current pair whose value is JSON null")
 for L in range(1, maxlen + 1):
     for ops in itertools.product(OPS, repeat=L):
         w = run([("e1", op) for op in ops])
@@ -123,14 +151,28 @@ for L in range(1, maxlen + 1):
             break
     if w:
         break
+# commands with several arguments: after every state reachable by two single adds, and in the random histories
+if MODE:
+    MULTI = []
+if w is None:
+    for a1, a2 in itertools.product([o for o in OPS if o[0] == "add"], repeat=2):
+        for m in MULTI:
+            for tail in [()] + [(o,) for o in OPS if o[0] in ("add", "rm")]:
+                w = run([("e1", a1), ("e1", a2), ("e1", m)] + [("e1", t) for t in tail])
+                if w:
+                    break
+            if w:
+                break
+        if w:
+            break
 if w is None:
     rnd = random.Random(int(os.environ.get("VERIF_SEED", "0")) + 24)
     for _ in range(int(os.environ.get("C24_RANDOM", "120"))):
-        hist = [(rnd.choice(["e1", "e2"]), rnd.choice(OPS)) for _ in range(rnd.choice([5, 6, 7]))]
+        hist = [(rnd.choice(["e1", "e2"]), rnd.choice(OPS + MULTI)) for _ in range(rnd.choice([5, 6, 7]))]
         w = run(hist)
         if w:
             break
     samples.append([f"{e}:{op[0]}:{op[1]}" for e, op in hist])
 samples.append(["e1:add:('k1', 1)", "e1:rm:('k1', 1)", "e1:add:('k1', 1)"])
 finish(w is not None, witness=w, evaluations=n, distinct=len(nontrivial), samples=samples,
-       bound=f"all histories of <= {maxlen} commands from 14 (add / update / rm pair over 2 keys x 2 values, rm key) on one entity; {os.environ.get('C24_RANDOM', '120')} seeded random histories of 5..7 commands on two entities")
+       bound=("JSON null as a value (every command except the removal of a null-valued pair): " if MODE else "") + f"all histories of <= {maxlen} commands from {len(OPS)} (add / update / rm pair over 2 keys x 2 values, rm key) on one entity; 6 commands with several arguments (add / update / rm of two pairs, rm of a pair and a key) after every pair of adds, alone and followed by one add / rm; {os.environ.get('C24_RANDOM', '120')} seeded random histories of 5..7 commands (single and multi-argument) on two entities")
